@@ -1,7 +1,7 @@
 #!/bin/bash
 # run every quick check with a given seed; print one line per property
 seed=${1:-0}; tier=${2:-quick}
-cd /verif
+cd "$(dirname "$0")/.."
 for i in 01 02 03 04 05 06 07 08 09 10 11 12 13 14 15 16 17 18 19 20; do
   out=$(VERIF_SEED=$seed ./check C$i --tier $tier 2>/dev/null); rc=$?
   echo "rc=$rc $(echo "$out" | grep -E '^C[0-9]+ tier' | tail -1) $(echo "$out" | grep -c KNOWN-FINDING) known $(echo "$out" | grep VIOLATION | head -2 | tr '\n' ' ')"
